@@ -72,32 +72,40 @@ fn fit_forest(case: &ForestCase) -> Result<Result<Out, String>, String> {
     let qm = DenseMatrix::from_2d_vec(&all);
     catch(|| {
         if case.classifier {
-            let mut p = RandomForestClassifierParameters::default()
-                .with_criterion(match case.criterion {
-                    0 => SplitCriterion::Gini,
-                    1 => SplitCriterion::Entropy,
-                    _ => SplitCriterion::ClassificationError,
-                })
-                .with_n_trees(case.n_trees)
-                .with_min_samples_leaf(case.min_samples_leaf)
-                .with_min_samples_split(case.min_samples_split)
-                .with_keep_samples(case.keep_samples)
-                .with_seed(case.seed);
+            let criterion = match case.criterion {
+                0 => SplitCriterion::Gini,
+                1 => SplitCriterion::Entropy,
+                _ => SplitCriterion::ClassificationError,
+            };
+            // builder calls in two orders (a setter that rebuilds from the defaults would lose earlier settings)
+            let mut p = RandomForestClassifierParameters::default();
+            if case.x.len() % 2 == 0 {
+                p = p.with_criterion(criterion.clone()).with_n_trees(case.n_trees).with_min_samples_leaf(case.min_samples_leaf).with_min_samples_split(case.min_samples_split).with_keep_samples(case.keep_samples).with_seed(case.seed);
+            }
             if let Some(d) = case.max_depth {
                 p = p.with_max_depth(d);
             }
             if let Some(m) = case.m {
                 p = p.with_m(m);
+            }
+            if case.x.len() % 2 != 0 {
+                p = p.with_seed(case.seed).with_keep_samples(case.keep_samples).with_min_samples_split(case.min_samples_split).with_min_samples_leaf(case.min_samples_leaf).with_n_trees(case.n_trees).with_criterion(criterion);
             }
             let f = RandomForestClassifier::fit(&xm, &case.y, p).map_err(|e| format!("fit: {}", e))?;
             Ok(Out { json: serde_json::to_value(&f).map_err(|e| e.to_string())?, pred: f.predict(&qm).map_err(|e| format!("predict: {}", e))?, oob: f.predict_oob(&xm).map_err(|e| e.to_string()), model: Forest::C(f) })
         } else {
-            let mut p = RandomForestRegressorParameters::default().with_n_trees(case.n_trees as usize).with_min_samples_leaf(case.min_samples_leaf).with_min_samples_split(case.min_samples_split).with_keep_samples(case.keep_samples).with_seed(case.seed);
+            let mut p = RandomForestRegressorParameters::default();
+            if case.x.len() % 2 == 0 {
+                p = p.with_n_trees(case.n_trees as usize).with_min_samples_leaf(case.min_samples_leaf).with_min_samples_split(case.min_samples_split).with_keep_samples(case.keep_samples).with_seed(case.seed);
+            }
             if let Some(d) = case.max_depth {
                 p = p.with_max_depth(d);
             }
             if let Some(m) = case.m {
                 p = p.with_m(m);
+            }
+            if case.x.len() % 2 != 0 {
+                p = p.with_seed(case.seed).with_keep_samples(case.keep_samples).with_min_samples_split(case.min_samples_split).with_min_samples_leaf(case.min_samples_leaf).with_n_trees(case.n_trees as usize);
             }
             let f = RandomForestRegressor::fit(&xm, &case.y, p).map_err(|e| format!("fit: {}", e))?;
             Ok(Out { json: serde_json::to_value(&f).map_err(|e| e.to_string())?, pred: f.predict(&qm).map_err(|e| format!("predict: {}", e))?, oob: f.predict_oob(&xm).map_err(|e| e.to_string()), model: Forest::R(f) })
